@@ -18,6 +18,13 @@ Tie (DESIGN §6 C15):
  3. the property predicates are evaluated directly on the real objects while a program runs
     (paste length / order / head / time origin; reverse order / flags / twice; mutate a copy →
     nothing else changes; classification vs min / max of the sequence).
+ 4. extension pass: `__eq__` / `__ne__`, `get_shooting_point` (stub generator recording the request; real numpy
+    Generator for the predicate "never an end point"), `update_energies`, `empty_path` with omitted keywords,
+    `adress`, `reverse_velocities`, `set_pos`, subclasses of Path (class kept by copy / reverse / paste /
+    empty_path) are ops of the same machine; the identity of the pos / vel / box arrays and of the temperature
+    dict is part of the dump and in-place mutation of them is an op (who sees it = who shares the container);
+    the warnings of paste_paths / += / update_energies (which loop gave up, at which length) are captured and
+    compared with the model.
 """
 from __future__ import annotations
 
@@ -692,6 +699,13 @@ class Real:
                 return self.log.append("skip")
             set_pfield(P[op[1]], op[2], op[3])
             self.log.append("pset")
+            if self.check and op[2] == "generated":
+                try:
+                    mv = P[op[1]].get_move()
+                except Exception as e:  # noqa: BLE001
+                    mv = err_kind(e)
+                if mv != (None if op[3] is None else "sh"):
+                    self.bad("C15:get-move", f"get_move() answers {mv!r} for generated={P[op[1]].generated!r}")
         elif k == "classify":
             if not ok(op[1]):
                 return self.log.append("skip")
@@ -823,6 +837,24 @@ class Real:
                                  "the index it returns")
                 elif L >= 3 and all(len(s.order) > 0 for s in p.phasepoints):
                     self.bad("C15:shooting-point-raises", f"get_shooting_point raised {res} on a path of length {L}")
+                if L >= 3 and all(len(s.order) > 0 for s in p.phasepoints):
+                    # the same with a real numpy Generator: interior frames only, and each interior frame can come
+                    rg = np.random.default_rng(1000 * L + op[2])
+                    seen = set()
+                    for _ in range(8 * L):
+                        try:
+                            sp2, i2 = p.get_shooting_point(rg)
+                        except Exception as e:  # noqa: BLE001
+                            self.bad("C15:shooting-point-raises", f"get_shooting_point raised {type(e).__name__} with a "
+                                     f"numpy Generator on a path of length {L}")
+                            break
+                        if not (1 <= int(i2) <= L - 2) or p.phasepoints[int(i2)] is not sp2:
+                            self.bad("C15:shooting-point-endpoint", f"with a numpy Generator get_shooting_point returned "
+                                     f"index {int(i2)} on a path of length {L} (or not the frame at that index)")
+                            break
+                        seen.add(int(i2))
+                    else:
+                        self.branches.append("shoot:numpy:all-interior" if len(seen) == L - 2 else "shoot:numpy:some-interior")
         elif k == "upd":
             if not ok(op[1]):
                 return self.log.append("skip")
@@ -1147,6 +1179,38 @@ def gen_alias(rng):
                          [rng.randint(-9, 0) for _ in range(lens[i] + rng.choice((0, 0, -1, 1)))]))
         else:
             prog.append(("revvel", i, k))
+    return prog
+
+
+def gen_trunc(rng):
+    """paths LONGER than their limit (the limit is lowered after the frames are in, as tis.py does with maxlen):
+    copy / reverse / += / paste must truncate — branches the random programs reach rarely"""
+    n = rng.randint(1, 5)
+    prog = [("new", None, rng.randint(-2, 2))] + [("sys", 0, rand_vals(rng)) for _ in range(n)]
+    prog.append(("pset", 0, "maxlen", rng.choice((n - 1, n - 1, n - 2, 1, 0, -1, n))))
+    prog.append(("new", rng.choice((None, 2, n)), 0))
+    for _ in range(rng.randint(0, 2)):
+        prog.append(("sys", 1, rand_vals(rng)))
+    for _ in range(rng.randint(2, 5)):
+        what = rng.choice(("copy", "rev", "iadd", "paste", "sys", "cpa", "shoot", "upd", "eq"))
+        if what == "copy":
+            prog.append(("copy", 0))
+        elif what == "rev":
+            prog.append(("rev", 0, None if rng.random() < 0.5 else (1, 1, 0, True), rng.random() < 0.7))
+        elif what == "iadd":
+            prog.append(("iadd", rng.choice((0, 1)), rng.choice((0, 1))))
+        elif what == "paste":
+            prog.append(("paste", rng.choice((0, 1)), rng.choice((0, 1)), rng.random() < 0.5, rng.choice((None, None, n, 1))))
+        elif what == "sys":
+            prog.append(("sys", 0, rand_vals(rng)))
+        elif what == "cpa":
+            prog.append(("cpa", 0, 0, rng.randrange(n)))
+        elif what == "shoot":
+            prog.append(("shoot", 0, rng.randint(0, 5)))
+        elif what == "upd":
+            prog.append(("upd", 0, [1] * rng.randint(0, n + 1), [2] * rng.randint(0, n + 1)))
+        else:
+            prog.append(("eq", 0, rng.choice((0, 1, 2))))
     return prog
 
 
@@ -1478,7 +1542,11 @@ def run(ctx):
     import logging
     logging.getLogger("infretis.classes.path").setLevel(logging.ERROR)
     ctx.rule = ("op programs: prelude (1–3 paths × 0–5 frames) + ≤12 random ops (incl. classify / replace frame / "
-                "extender slice+concat / delete); histories on one Path object: classify → in-place change → classify "
+                "extender slice+concat / delete / == / != / get_shooting_point / update_energies / empty_path with "
+                "omitted keywords / in-place numpy mutation / adress / reverse_velocities / subclass / extra attribute); "
+                "aliasing programs (shared frames or shallow copies + in-place mutation), equality programs (twin paths "
+                "holding the same frame objects, one difference), over-limit programs, systematic get_shooting_point "
+                "(every length × every answer) and update_energies (every length triple); histories on one Path object: classify → in-place change → classify "
                 "(random, and systematic over all sequences ≤3 (thorough 4) × position × new value); non-trivial = the "
                 "program contains a paste/reverse/copy/iadd/classify on a non-empty path; distinct by the program's "
                 "token line. Classification: "
@@ -1494,6 +1562,7 @@ def run(ctx):
     progs += list(systematic_pastes(3 if ctx.quick else 5))
     progs += [gen_alias(rng) for _ in range(1500 if ctx.quick else 30000)]
     progs += [gen_eq(rng) for _ in range(1500 if ctx.quick else 30000)]
+    progs += [gen_trunc(rng) for _ in range(800 if ctx.quick else 15000)]
     progs += list(systematic_shoot(6 if ctx.quick else 9))
     progs += list(systematic_upd(3 if ctx.quick else 5))
     lines, code_out = [], []
@@ -1602,8 +1671,15 @@ def run(ctx):
     ctx.assumptions += ["[C15] " + a for a in [
         "order values, energies and the array-valued fields are small integers (exact as floats); no NaN order values",
         "`self += self` (iteration over the list being extended) is outside the model and not generated",
-        "object identity is tracked for System objects and for the `order` list object; the arrays pos/vel/box and the "
-        "temperature dict are only re-assigned, never mutated in place",
+        "object identity is tracked for System objects, the `order` list and the pos / vel / box arrays and the temperature "
+        "dict (one-element containers): both re-assignment and in-place mutation (x[0] = v, x[...] = v, fill, dict item / "
+        "update) are generated and compared with the model's sharing",
+        "Path.__eq__: class and attribute-name set are tracked by the op machine (subclasses of Path, extra attributes); "
+        "standard attributes are never deleted; System defines no __eq__ (frames compare by identity)",
+        "get_shooting_point: the generator is a stub that records the request and answers lo + u mod (hi-lo) (ValueError "
+        "for an empty range, like numpy); in addition a real numpy Generator is used for the predicate",
+        "warnings of paste_paths / __iadd__ / update_energies are captured from the module logger and compared with the "
+        "model's branch (which loop gave up, at which length); debug-level messages are not compared",
         "the order function passed to reverse reads only the field values of the System it is given",
         "object-history checks (one long-lived Path classified repeatedly, fresh System()/Path() pristine after other "
         "instances were changed in place, argument purity of paste/copy/reverse/+=, result↔source aliasing in both "
